@@ -22,6 +22,7 @@ mod c12;
 mod c16;
 mod c20; // C20
 mod c15;
+mod c11; // C11
 
 use std::io::{BufRead, Write};
 
@@ -40,6 +41,7 @@ fn main() {
             let out = std::io::stdout();
             let mut out = std::io::BufWriter::new(out.lock());
             let lines = match prop {
+                "C11" => c11::gen(tier, seed), // C11
                 "C15" => c15::gen(tier, seed),
                 "C20" => c20::gen(tier, seed), // C20
                 "C16" => c16::gen(tier, seed),
@@ -77,6 +79,7 @@ fn main() {
                 let l2 = line.clone();
                 let p = prop.to_string();
                 let res = std::panic::catch_unwind(move || match p.as_str() {
+                    "C11" => c11::eval(&l2), // C11
                     "C15" => c15::eval(&l2),
                     "C20" => c20::eval(&l2), // C20
                     "C16" => c16::eval(&l2),
